@@ -6,7 +6,9 @@ diagnostic state; refuted variants; the known gap pooled_non_exception_hangs).
 
 Tie W2, exhaustive fault enumeration on the working-tree snapshot, both cube types, k = 1..8 sub-cubes:
   serial   no raise, and a raise at every single invocation index i < k (given as invocation number and as
-           sub-cube number), plus non-Exception interrupts (must propagate too);
+           sub-cube number), plus non-Exception interrupts (must propagate too); the CLASS of the exception is varied at
+           every index, serial and pooled: custom Exception subclass, StopIteration, a StopIteration subclass,
+           StopAsyncIteration, KeyError, RuntimeError, ValueError("Pool not running");
   pooled   pool forced on (cube.parallel = True; pool_class / ThreadPool patched in the snapshot's namespace)
            with harness/sched.py's DetPool: EVERY subset of invocation numbers and EVERY subset of sub-cubes
            for k <= 6 (random subsets for k = 7, 8), each under several seeded schedules (bytecode and task
@@ -19,6 +21,10 @@ Oracle (model-free): the property text - raised => one of the raised objects com
 returns the fresh result after consulting every sub-cube exactly once; serial raise at i => i+1 consultations;
 follow-up call = fresh evaluation.
 
+Known finding K2 (pooled:StopIteration-swallowed): pool.py's worker runs `list(map(func, chunk))`, so a StopIteration (or a
+subclass) raised by the callback inside a pool task ends that chunk silently and calculate RETURNS a partial result; verified on the
+real ThreadPool, reproduced by DetPool; reported as known in pooled mode only - a StopIteration swallowed in SERIAL mode, or any other
+class swallowed anywhere, is a violation.
 Known finding K1 (pooled:non-Exception-interrupt-hangs) is exercised with DetPool only (it raises PoolWouldHang
 where the real pool would block for ever); the thorough tier demonstrates the real hang in a subprocess
 under a hard timeout.
@@ -52,6 +58,30 @@ class HardInterrupt(BaseException):
         self.n, self.j = n, j
 
 
+class StopSub(StopIteration):
+    """a subclass of StopIteration (what `next(it)` raises is swallowed by every map / list / for that drives the caller)"""
+
+    def __init__(self, n, j):
+        StopIteration.__init__(self, "interrupt at invocation %s (sub-cube %s)" % (n, j))
+        self.n, self.j = n, j
+
+
+# the CLASS of the exception the callback raises (the property does not restrict it): name -> factory(n, j)
+EXC = {
+    "Interrupt": Interrupt,                                  # custom Exception subclass
+    "StopIteration": lambda n, j: StopIteration("interrupt", n, j),   # e.g. cube.check_interrupt = iter(range(n)).__next__
+    "StopSub": StopSub,
+    "StopAsyncIteration": lambda n, j: StopAsyncIteration("interrupt", n, j),
+    "KeyError": lambda n, j: KeyError((n, j)),
+    "RuntimeError": lambda n, j: RuntimeError("interrupt", n, j),
+    "ValueError": lambda n, j: ValueError("Pool not running"),     # an ordinary exception that looks like one of the pool's own
+    "HardInterrupt": HardInterrupt,                          # BaseException that is not an Exception (K1 in pooled mode)
+}
+ORDINARY = ("Interrupt", "StopIteration", "StopSub", "StopAsyncIteration", "KeyError", "RuntimeError", "ValueError")
+STOP_CLASSES = ("StopIteration", "StopSub")
+SIG_K2 = "pooled:StopIteration-swallowed"
+
+
 # ------------------------------------------------------------------------------------------ observing one call
 def read_diag(kind, cube, funcs):
     if kind == "ccube":
@@ -65,10 +95,10 @@ def read_diag(kind, cube, funcs):
 class Call:
     """one calculate call on given cube / aggregate objects with an interrupt oracle installed"""
 
-    def __init__(self, rig, cfg, cube, funcs, coords, T=(), N=(), exc=Interrupt):
+    def __init__(self, rig, cfg, cube, funcs, coords, T=(), N=(), exc="Interrupt"):
         self.rig, self.cfg, self.cube, self.funcs = rig, cfg, cube, funcs
         self.index = {tuple(c): i for i, c in enumerate(coords)}
-        self.T, self.N, self.exc = set(T), set(N), exc
+        self.T, self.N, self.exc = set(T), set(N), EXC[exc]
         self.log, self.diag_at, self.raised = [], [], {}
         self.lock = threading.Lock()
         self.kind = cfg["kind"]
@@ -179,6 +209,8 @@ def run(ctx):
     ctx.rule = ("'scale' cubes (30..40 rows x 9..16 sub-cubes, both types; every call is the first evaluation of a fresh cube object) and, "
                 "for both cube types and k = 1..8 sub-cubes (random cubes with extra axes, random aggregates singly or 2-4 together): "
                 "serial mode - no raise and a raise at EVERY single invocation index (as invocation number and as sub-cube number), "
+                "exception class varied at every index in serial and pooled mode (custom Exception, StopIteration, StopIteration subclass, "
+                "StopAsyncIteration, KeyError, RuntimeError, ValueError), "
                 "Exception and non-Exception interrupts; pooled mode under the deterministic scheduler - EVERY subset of invocation "
                 "numbers and EVERY subset of sub-cubes for k <= 6 (random subsets for k = 7, 8) x seeded schedules (bytecode and task "
                 "granularity) x pool sizes {1,2,3,4,8,16}, plus the real ThreadPool (switch interval 1e-6); each call followed by an uninterrupted calculate on the same "
@@ -191,11 +223,13 @@ def run(ctx):
     pr = ctx.prove("C20.v")
     ctx.assumptions = ["Print Assumptions: " + a for a in pr["assumptions"]] + [
         "pooled theorems are stated for interrupts the pool relays (instances of Exception); for any other BaseException pooled calculate "
-        "hangs - known finding K1 " + SIG_K1]
+        "hangs - known finding K1 " + SIG_K1,
+        "the pool does not relay StopIteration either (its worker's list(map(...)) swallows it): known finding K2 " + SIG_K2 +
+        "; such calls are judged by the oracle only and are not compared with the model"]
     ctx.coverage["print_assumptions"] = pr["assumptions"]
 
     lits, meta, hits = [], [], []
-    stats = {"scale_configurations": 0, "serial_calls": 0, "pooled_det_calls": 0, "pooled_real_calls": 0, "k1_det_calls": 0, "reuse_calls": 0,
+    stats = {"k2_calls": 0, "by_exception_class": {}, "scale_configurations": 0, "serial_calls": 0, "pooled_det_calls": 0, "pooled_real_calls": 0, "k1_det_calls": 0, "reuse_calls": 0,
              "pooled_skipped_subcubes_seen": 0, "pooled_multiple_raised_seen": 0}
     dist = {"k": {}, "kind": {}, "pool_sizes": {}, "granularity": {}}
     points = [0]
@@ -204,12 +238,15 @@ def run(ctx):
         """one first call + follow-up on the same objects; property oracle; Coq literal"""
         cube, funcs = rig.cube(cfg), rig.funcs(cfg)
         call = Call(rig, cfg, cube, funcs, coords, T, N, exc)
+        if T or N:
+            key = "%s/%s" % (exc, "serial" if mode == "serial" else "pooled")
+            stats["by_exception_class"][key] = stats["by_exception_class"].get(key, 0) + 1
         kw = {} if mode == "serial" else {"poolsize": poolsize, "seed": seed, "granularity": gran, "p_switch": p_switch}
         seen = {"log": [], "obs": None, "foreign": None}
 
         def desc():
             return {"cfg": cfg, "mode": mode, "poolsize": poolsize, "sched_seed": seed, "granularity": gran, "p_switch": p_switch,
-                    "raise_for_subcubes": sorted(T), "raise_at_invocations": sorted(N), "exception_class": exc.__name__,
+                    "raise_for_subcubes": sorted(T), "raise_at_invocations": sorted(N), "exception_class": exc,
                     "observed_log": seen["log"], "observed_outcome": seen["obs"], "foreign": seen["foreign"]}
         if mode == "real":
             r, timed_out = with_timeout(lambda: call.run("real", **kw), 20)
@@ -224,18 +261,25 @@ def run(ctx):
         raising = [e for e in log if e in call.raised]
         seen.update(log=log, obs=r["obs"], foreign=r["foreign"])
         bad = []
+        k2 = False
         if mode != "serial" and r["maps"] != 1:
             bad.append(("c20:pool-not-engaged", "pool.map was called %d times in pooled mode" % r["maps"], False))
         if r["hang"]:
             stats["k1_det_calls"] += 1
-            if exc is HardInterrupt and mode == "det":
+            if exc == "HardInterrupt" and mode == "det":
                 hits.append((SIG_K1, "pooled mode: a non-Exception interrupt kills the pool worker; the real pool.map never returns", desc(), True))
             else:
                 bad.append(("pooled:hang", "the pool would hang although only Exceptions were raised", True))
         elif r["foreign"] is not None:
             bad.append(("interrupt:foreign-exception", "calculate raised %s instead of (one of) the interrupt(s)" % r["foreign"], True))
+        elif raising and r["obs"] is None and mode != "serial" and exc in STOP_CLASSES:
+            # known finding K2: pool.py's worker runs list(map(func, chunk)); a StopIteration out of func ends the chunk silently
+            k2 = True
+            stats["k2_calls"] += 1
+            hits.append((SIG_K2, "pooled mode: a callback raising StopIteration is swallowed by the pool worker's list(map(...)); calculate returns a partial result",
+                         desc(), True))
         elif raising and r["obs"] is None:
-            bad.append(("interrupt:not-propagated", "a consultation raised but calculate returned", True))
+            bad.append(("interrupt:not-propagated", "a consultation raised %s but calculate returned" % exc, True))
         elif not raising and r["obs"] is not None:
             bad.append(("interrupt:foreign-exception", "calculate raised an interrupt nobody raised", True))
         js = [j for _, j in log]
@@ -269,7 +313,7 @@ def run(ctx):
                         "objects %s" % (r["obs"], "raised " + str(r2["foreign"] or r2["obs"]) if r2["sig"] is None else "differs from a fresh evaluation"), True))
         for sig, what, found in bad:
             hits.append((sig, what, desc(), found))
-        if r["hang"]:
+        if r["hang"] or k2:
             return
         if raising:
             ctx.nontrivial.add((cfgi, mode, tuple(sorted(T)), tuple(sorted(N)), poolsize, seed, gran))
@@ -349,12 +393,20 @@ def run(ctx):
                     ctx.samples.append({"cfg": cfg, "subcube_coords": coords, "costs": costs, "fill_calls": nf})
                 args = (cfgi, cfg, k, fresh, coords, costs, nf)
                 # ---- serial: nothing, every single index (as invocation number / as sub-cube), hard interrupts
-                oracle_and_case(*args, "serial", [], [], Interrupt)
+                oracle_and_case(*args, "serial", [], [], "Interrupt")
                 for i in range(k):
-                    oracle_and_case(*args, "serial", [], [i], Interrupt)
-                    oracle_and_case(*args, "serial", [i], [], Interrupt)
+                    oracle_and_case(*args, "serial", [], [i], "Interrupt")
+                    oracle_and_case(*args, "serial", [i], [], "Interrupt")
                     stats["serial_calls"] += 2
-                oracle_and_case(*args, "serial", [], [rng.randrange(k)], HardInterrupt)
+                    # the CLASS of the exception, at every index: serial, and pooled (scheduler, task granularity; pool size 1
+                    # gives batches of 2 for k >= 5)
+                    for cname in ORDINARY[1:]:
+                        oracle_and_case(*args, "serial", [], [i], cname)
+                        stats["serial_calls"] += 1
+                        if scale is None or i % 3 == 0:
+                            oracle_and_case(*args, "det", [], [i], cname, poolsize=[1, 2, 3][(i + cfgi) % 3], seed=rng.randrange(1 << 30), gran="task")
+                            stats["pooled_det_calls"] += 1
+                oracle_and_case(*args, "serial", [], [rng.randrange(k)], "HardInterrupt")
                 stats["serial_calls"] += 2
                 # ---- pooled, deterministic scheduler
                 if k <= KSUB:
@@ -370,7 +422,7 @@ def run(ctx):
                         ps = [1, 2, 3, 1, 4, 2, 1, 8, 1, 16, 2][(si + len(s) + cfgi) % 11]
                         dist["pool_sizes"][ps] = dist["pool_sizes"].get(ps, 0) + 1
                         dist["granularity"][gran] = dist["granularity"].get(gran, 0) + 1
-                        oracle_and_case(*args, "det", T, N, Interrupt, poolsize=ps, seed=rng.randrange(1 << 30), gran=gran,
+                        oracle_and_case(*args, "det", T, N, "Interrupt", poolsize=ps, seed=rng.randrange(1 << 30), gran=gran,
                                         p_switch=rng.choice([1.0, 0.2]))
                         stats["pooled_det_calls"] += 1
                 # ---- pooled, real ThreadPool (Exceptions only: a non-Exception would hang it - K1)
@@ -378,11 +430,15 @@ def run(ctx):
                 for which, s in reals:
                     T, N = (s, []) if which == "T" else ([], s)
                     ps = rng.choice([1, 1, 2, 3, 4, 8])
-                    oracle_and_case(*args, "real", T, N, Interrupt, poolsize=ps)
+                    oracle_and_case(*args, "real", T, N, "Interrupt", poolsize=ps)
+                    stats["pooled_real_calls"] += 1
+                # the real pool with every exception class (one random index each; sub-cube subsets for a second one)
+                for cname in ORDINARY[1:]:
+                    oracle_and_case(*args, "real", [], [rng.randrange(k)], cname, poolsize=rng.choice([1, 1, 2, 4]))
                     stats["pooled_real_calls"] += 1
                 # ---- K1: non-Exception interrupt in pooled mode (deterministic pool only)
                 if k >= 3 and made == 1:
-                    oracle_and_case(*args, "det", [rng.randrange(k)], [], HardInterrupt, poolsize=2, seed=rng.randrange(1 << 30), gran="task")
+                    oracle_and_case(*args, "det", [rng.randrange(k)], [], "HardInterrupt", poolsize=2, seed=rng.randrange(1 << 30), gran="task")
                 cfgi += 1
     t_impl = time.time() - t0
 
@@ -418,7 +474,7 @@ def run(ctx):
     for sig, hs in by_sig.items():
         what, d, found = min(hs, key=lambda h: (len(h[1].get("observed_log", [])), len(json.dumps(h[1].get("cfg", {})))))
         ctx.report(sig, what, dict(d, occurrences=len(hs)), found_input=found)
-    if [s for s in by_sig if s != SIG_K1]:
+    if [s for s in by_sig if s not in (SIG_K1, SIG_K2)]:
         return
     if pr["ok"] and not res.failing and not res.errors:
         return
@@ -481,7 +537,7 @@ def replay(ctx, path):
     cube, funcs = rig.cube(cfg), rig.funcs(cfg)
     coords = rig.product_coords(cube, cfg)
     fresh = cl.out_sig(rig.calculate(rig.cube(cfg), rig.funcs(cfg), "serial"))
-    exc = HardInterrupt if r.get("exception_class") == "HardInterrupt" else Interrupt
+    exc = r.get("exception_class") if r.get("exception_class") in EXC else "Interrupt"
     mode = r.get("mode", "serial")
     kw = {} if mode == "serial" else {"poolsize": r.get("poolsize", 2), "seed": r.get("sched_seed", 0), "granularity": r.get("granularity", "task"),
                                       "p_switch": r.get("p_switch", 1.0)}
@@ -500,8 +556,10 @@ def replay(ctx, path):
             bad = "the pool would hang"
         elif res["foreign"]:
             bad = "foreign exception " + res["foreign"]
+        elif raising and res["obs"] is None and mode != "serial" and exc in STOP_CLASSES:
+            bad = "pooled mode swallows StopIteration (K2)"
         elif raising and res["obs"] is None:
-            bad = "a consultation raised but calculate returned"
+            bad = "a consultation raised %s but calculate returned" % exc
         elif len(set(js)) != len(js) or any(j < 0 or j >= k for j in js) or (not raising and sorted(js) != list(range(k))):
             bad = "consultations %s" % js
         elif res["obs"] is None and res["sig"] != fresh:
@@ -517,4 +575,4 @@ def replay(ctx, path):
     ctx.nontrivial.add(1)
     ctx.samples.append({"cfg": cfg, "mode": mode})
     if bad:
-        ctx.report(r.get("signature", "c20:replay"), bad, {k_: r[k_] for k_ in r if k_ not in ("property", "signature", "what", "seed_", "tier", "kind", "rerun")})
+        ctx.report(SIG_K2 if bad.endswith("(K2)") else r.get("signature", "c20:replay"), bad, {k_: r[k_] for k_ in r if k_ not in ("property", "signature", "what", "seed_", "tier", "kind", "rerun")})
